@@ -17,6 +17,11 @@ type BatchedPrivateIssuer struct {
 }
 
 func NewBatchedPrivateIssuer(key *oprf.PrivateKey) *BatchedPrivateIssuer {
+	// The key object computes and caches its public key on first use without
+	// synchronisation; do that now, before the issuer can be shared between
+	// goroutines.
+	key.Public()
+
 	return &BatchedPrivateIssuer{
 		tokenKey: key,
 	}
